@@ -76,6 +76,11 @@ def _run_shard(args):
         import traceback
         return {'harness_error': traceback.format_exc(), 'shard': shard}
     r['wall'] = time.time() - t0
+    # every case remembers the shard it was found in: a violation that needs the earlier cases of its shard (state kept
+    # by the code under test between calls) is confirmed by replaying that shard
+    for v in r.get('violations', []):
+        if isinstance(v.get('case'), dict) and not isinstance(v['case'].get('shard'), dict):
+            v['case']['_shard'] = shard
     return r
 
 
@@ -157,10 +162,13 @@ def main():
         vs = mod.replay(doc['case'])
         want = doc.get('sig')
         hit = [v for v in vs if want is None or v['sig'] == want]
-        if not hit and isinstance(doc['case'], dict) and isinstance(doc['case'].get('shard'), dict):
+        hist_shard = None
+        if isinstance(doc['case'], dict):
+            hist_shard = doc['case'].get('shard') if isinstance(doc['case'].get('shard'), dict) else doc['case'].get('_shard')
+        if not hit and isinstance(hist_shard, dict):
             # the case alone does not show it: replay it with its history - the whole shard it belongs to, in shard order,
             # in this fresh interpreter (defects that need earlier calls on the same objects: caches, registries)
-            r = mod.run_shard(doc['case']['shard'])
+            r = mod.run_shard(hist_shard)
             hit = [v for v in r.get('violations', []) if want is None or v['sig'] == want]
             if hit:
                 print('(reproduced with its history: the shard of the case was replayed from its start)')
